@@ -82,7 +82,12 @@ def _coord_names(system):
     return out + list(system[1:])
 
 
-def make_fn(pkg, name, module, sig, upper=None, momentum=(False, False)):
+# operations whose value for a negative time component is a recorded finding (known_findings.json):
+# the obligation is split by the sign of t so that t > 0 stays a full obligation
+SIGN_SPLIT = {("lorentz", "Et"), ("lorentz", "to_beta3")}
+
+
+def make_fn(pkg, name, module, sig, upper=None, momentum=(False, False), tsign=0):
     """obligation for one dispatch_map entry.  upper: extra stored coordinates appended to every
     vector operand (exercises _wrap_result pass-through of a lower-dimensional operation)."""
     params = common.dispatch_params(module)
@@ -124,6 +129,8 @@ def make_fn(pkg, name, module, sig, upper=None, momentum=(False, False)):
                 args_s.append(s)
                 args_c.append(s)
         extra_domain(pkg, name, R, lib, carts, scal)
+        if tsign:
+            R.assume(carts[0][3] > 0 if tsign > 0 else carts[0][3] < 0)
         if name in ("equal", "not_equal") and R.mode == "sym" and len(sig_vecs) == 2:
             # (rho, phi, theta, eta) -> Cartesian is injective on the representable domain
             s1, c1 = lanes.stored(sig_vecs[0])
@@ -136,8 +143,10 @@ def make_fn(pkg, name, module, sig, upper=None, momentum=(False, False)):
                         _core.angle_window_lemma(c1[k1], c2[k2])
                     if n1 == n2 == "eta":
                         _core.exp_of(c1[k1]), _core.exp_of(c2[k2])
-        got = module.dispatch(*args_s)
         ref = module.dispatch(*args_c)
+        # the exact result must be representable in the system the variant declares (known before it runs)
+        common.assume_representable_declared(R, lib, module.dispatch_map[sig][1:], ref, sig_vecs)
+        got = module.dispatch(*args_s)
         common.assume_representable(R, lib, got, ref)
         goals = []
         if (pkg, name) in PASS_THROUGH_EXCEPTIONS and upper:
@@ -192,6 +201,16 @@ def families(tier="quick"):
         for k, sig in enumerate(module.dispatch_map):
             sname = common.sig_name(sig)
             impl = module.dispatch_map[sig][0]
+            if (pkg, name) in SIGN_SPLIT and sname.endswith("|t"):
+                for sgn, tag in ((1, "@t>0"), (-1, "@t<0")):
+                    fams.append(
+                        Family(
+                            f"{PID}/{pkg}.{name}/{sname}{tag}",
+                            make_fn(pkg, name, module, sig, tsign=sgn),
+                            functions=fnames + [f"{impl.__module__}.{impl.__qualname__}"],
+                        )
+                    )
+                continue
             fams.append(
                 Family(
                     f"{PID}/{pkg}.{name}/{sname}",
